@@ -24,6 +24,13 @@ def FCfg.include (c : FCfg) : List DevIdT := c.known ++ [allId, nonId]
 def setActiveHgi (c : FCfg) (id : DevIdT) : FCfg :=
   if c.exclude.contains id then c else { c with active := some id }
 
+/-- `PortProtocol.connection_made`: the active gateway is whatever the transport identified
+    (`get_extra_info(SZ_ACTIVE_HGI)`; `None` when the stick never echoed the signature) - nothing else -/
+def connectionMade (c : FCfg) (reported : Option DevIdT) : FCfg :=
+  match reported with
+  | none => c
+  | some id => setActiveHgi c id
+
 /-- verdict of the loop body of `_is_wanted_addrs` for one id: `some false` = return False,
     `none` = continue -/
 def wantedOne (c : FCfg) (sending : Bool) (id : DevIdT) : Option Bool :=
